@@ -11,6 +11,8 @@ Decided (DESIGN.md §C12): the explicit integrator Phreeqc::rk_kinetics is a *co
   C12.lowexit   the early exits (-runge_kutta 1/2/3, taken only when all stage rates are equal) use weights summing to 1
   C12.partialstep  blocks that shorten the step before the early-exit tests also clear equal_rate (else a one-step exit
                 integrates only part of the interval)
+  C12.cvode     CVODE restart loop: elapsed time and restored state come from the same checkpoint (cvode_last_good_*), the
+                remaining time is tout - sum_t (one structural clause of the stiff-integrator path; the rest of it is undecided)
   C12.transfer  calc_final_kinetic_reaction transfers to the system exactly what the reactant gives up: coef is read after the
                 exhaustion clamp, every element contribution is scaled by coef, components are skipped only for coef == 0
   C12.step      step bookkeeping: the integrated time h_sum advances by h exactly once, only on the accepted branch
@@ -602,6 +604,52 @@ def run(P, R, tier):
     # ------------------------------------------------------------------ step bookkeeping
     step_rule(P, R, f, cfg, where)
     transfer_rule(P, R)
+    cvode_restart_rule(P, R)
+
+
+def cvode_restart_rule(P, R):
+    """CVODE restart loop of run_reactions: after an interrupted CVode call the integration resumes from a checkpoint.  The
+    checkpoint is a pair (state vector, elapsed time) kept in sibling members cvode_<which>_good_y / cvode_<which>_good_time.
+    The time added to sum_t and the state copied back into kinetics_y must belong to the SAME checkpoint, and the
+    remaining time is tout - sum_t; otherwise each restart integrates a different duration than it accounts for."""
+    R.rule("C12.cvode", "CVODE restart: the time added to sum_t and the state restored into kinetics_y come from the same checkpoint; remaining time = tout - sum_t", minimum=2)
+    f = P.one("Phreeqc::run_reactions")
+    where = dict(file=f["file"], function=f["q"])
+    times, states, rem = [], [], []
+    for lp in T.walk(f["body"]):
+        if lp[0] not in ("While", "Do", "For"):
+            continue
+        body = lp[3] if lp[0] == "While" else (lp[2] if lp[0] == "Do" else lp[5])
+        t_, s_ = [], []
+        for x in T.walk(body):
+            if x[0] == "Bin" and x[2] == "+=":
+                l, r = T.strip_casts(x[3]), T.strip_casts(x[4])
+                if l[0] == "Ref" and l[3] == "sum_t" and r[0] == "Member" and r[2].split("::")[-1].endswith("_time"):
+                    t_.append((r[2].split("::")[-1], x[1]))
+            if x[0] == "Call" and T.callee_name(x) == "N_VScale" and len(x[4]) == 3:
+                src, dst = T.strip_casts(x[4][1]), T.strip_casts(x[4][2])
+                if src[0] == "Member" and dst[0] == "Member" and dst[2].split("::")[-1] == "kinetics_y" and src[2].split("::")[-1].endswith("_y"):
+                    s_.append((src[2].split("::")[-1], x[1]))
+            if x[0] == "Bin" and x[2] == "=":
+                l, r = T.strip_casts(x[3]), T.strip_casts(x[4])
+                if l[0] == "Ref" and l[3] == "tout1" and r[0] == "Bin" and r[2] == "-" and T.text(r[3]) == "tout" and T.text(r[4]) == "sum_t":
+                    rem.append(x[1])
+        if t_ and s_ and len(t_) + len(s_) > len(times) + len(states):
+            times, states = t_, s_
+    if not times or not states:
+        R.anchor_missing("C12.cvode", "CVODE restart loop of run_reactions (sum_t += <checkpoint time>; N_VScale(1.0, <checkpoint y>, kinetics_y)) not found")
+        return
+    tp = set(n[:-len("_time")] for n, l in times)
+    sp = set(n[:-len("_y")] for n, l in states)
+    if len(tp) == 1 and tp == sp:
+        R.ok("C12.cvode", "checkpoint", "time and state both from %s_*" % next(iter(tp)))
+    else:
+        R.violation("C12.cvode", "checkpoint", "the restart adds the elapsed time of checkpoint %s but resumes from the state of checkpoint %s: every restart integrates a "
+                    "duration it does not account for" % (sorted(tp), sorted(sp)), line=times[0][1], **where)
+    if rem:
+        R.ok("C12.cvode", "remaining", "tout1 = tout - sum_t")
+    else:
+        R.violation("C12.cvode", "remaining", "the restart no longer integrates the remaining time tout - sum_t", line=times[0][1], **where)
 
 
 def transfer_rule(P, R, RULE="C12.transfer"):
